@@ -20,7 +20,7 @@ abbrev Path := List String
 abbrev Bytes := List UInt8
 
 inductive Errno where
-  | EBADF | ENOENT | ENOTDIR | EISDIR | EEXIST | EMFILE | EINVAL | EAGAIN | EPIPE | ESPIPE
+  | EBADF | ENOENT | ENOTDIR | EISDIR | EEXIST | EMFILE | EINVAL | EAGAIN | EPIPE | ESPIPE | ELOOP
   /-- not an errno: the harness guard refused a path that lexically leaves the scratch root -/
   | ESCAPE
   deriving DecidableEq, Repr, Inhabited
@@ -28,7 +28,7 @@ inductive Errno where
 def Errno.name : Errno → String
   | .EBADF => "EBADF" | .ENOENT => "ENOENT" | .ENOTDIR => "ENOTDIR" | .EISDIR => "EISDIR"
   | .EEXIST => "EEXIST" | .EMFILE => "EMFILE" | .EINVAL => "EINVAL" | .ESCAPE => "ESCAPE"
-  | .EAGAIN => "EAGAIN" | .EPIPE => "EPIPE" | .ESPIPE => "ESPIPE"
+  | .EAGAIN => "EAGAIN" | .EPIPE => "EPIPE" | .ESPIPE => "ESPIPE" | .ELOOP => "ELOOP"
 
 /-! ## file tree -/
 
@@ -380,10 +380,15 @@ def searchPath (k : K) : List (List String) → String → Option (List String)
   | [], _ => none
   | d :: ds, name => if isExec k (d ++ [name]) then some (d ++ [name]) else searchPath k ds name
 
+/-- each name once (a name bound again by a newer entry of the association list is one entry of the directory) -/
+def dedup : List String → List String
+  | [] => []
+  | a :: l => if a ∈ dedup l then dedup l else a :: dedup l
+
 /-- names bound directly under `p` (each once) -/
 def children (t : Tree) (p : Path) : List String :=
-  (t.filterMap fun (q, _) =>
-    if q.length = p.length + 1 ∧ q.take p.length = p then q.getLast? else none).eraseDups
+  dedup (t.filterMap fun (q, _) =>
+    if q.length = p.length + 1 ∧ q.take p.length = p then q.getLast? else none)
 
 /-- `opendir` + enumeration + `closedir`: needs a free descriptor while it runs, leaves none behind -/
 def listDir (k : K) (comps : List String) : Except Errno (List String) :=
